@@ -19,6 +19,7 @@ import (
 	"reflect"
 	"sort"
 	"testing"
+	"unicode/utf8"
 )
 
 type govcChunkReader struct {
@@ -108,12 +109,14 @@ func TestGovcBounded(t *testing.T) {
 	docs := []string{
 		`null`, `true`, `false`, `nulx`, `trux`, `falsx`, `nxll`, `fxlse`,
 		`0`, `-12`, `3.25`, `1e3`, `-0.5E-2`, `12345678901234567890`, `-`, `1.`, `01`,
-		`""`, `"abc"`, `"a\nb"`, `"Aé"`, `"😀"`, `"a\"b\\c"`, `"é😀"`, `"abc`, `"a\qb"`, `"\u12"`,
+		`""`, `"abc"`, `"a\nb"`, `"Aé"`, `"😀"`, `"a\"b\\c"`, `"é😀"`, `"\u0041\u00e9"`, `"\ud83d\ude00"`, `"\ud83d"`, `"abc`, `"a\qb"`, `"\u12"`, "\"a\xffb\"",
 		`[]`, `[1,2,3]`, `[ 1 , 2 ]`, `[1,2`, `[1,,2]`, `[true,false,null]`, `[[1],[2,[3]]]`, `["a","b"]`,
 		`{}`, `{"a":1}`, `{"a":1,"bc":"x"}`, `{ "a" : 1 , "bc" : "x" }`, `{"d":[1,2],"e":{"k":"v"}}`, `{"f":true,"g":1.5}`,
-		`{"zz":{"y":[1,{"q":null}]},"a":2}`, `{"a":1,}`, `{"a" 1}`, `{"a":5}`, `{"bc":"x"}`, `{"A":7,"BC":"y"}`, `{"f":nulx}`, `{"zz":nu,l],"a":1}`,
+		`{"zz":{"y":[1,{"q":null}]},"a":2}`, `{"a":1,}`, `{"a" 1}`, `{"\u0061":5}`, `{"b\u0063":"x"}`, `{"\u0062c":"\u00e9\ud83d\ude00"}`, `{"bc":"x"}`, `{"A":7,"BC":"y"}`, `{"f":nulx}`, `{"zz":nu,l],"a":1}`,
 		`  {"a":1}  `, "\n[1]\n",
 	}
+	// invalid bytes are replaced by U+FFFD in place, which grows the window
+	docs = append(docs, `"`+string(bytes.Repeat([]byte{0xff}, 520))+`"`, `["`+string(bytes.Repeat([]byte{0xff}, 300))+`","`+string(bytes.Repeat([]byte("y"), 400))+`"]`)
 	if thorough {
 		docs = append(docs, `{"e":{"k1":"v1","k2":"vé2"},"d":[10,20,30],"g":-1.25e2,"bc":"long string value with spaces"}`,
 			`[{"a":1},{"a":2,"bc":"\t"},{"f":false}]`, `"`+string(bytes.Repeat([]byte("x"), 600))+`"`, `[`+string(bytes.Repeat([]byte("1,"), 400))+`1]`)
@@ -165,10 +168,23 @@ func TestGovcBounded(t *testing.T) {
 			if (berr == nil) != (werr == nil) {
 				record("stream-vs-buffer-verdict-"+dst.name+"-"+govcTokenKind(doc, len(doc)-1), fmt.Sprintf("doc=%q stream err=%v buffer err=%v", d, werr, berr))
 			} else if berr == nil && !reflect.DeepEqual(reflect.ValueOf(bv).Elem().Interface(), whole) {
-				record("stream-vs-buffer-value-"+dst.name, fmt.Sprintf("doc=%q stream=%v buffer=%v", d, whole, reflect.ValueOf(bv).Elem().Interface()))
+				cls := "stream-vs-buffer-value-" + dst.name
+				if !utf8.Valid(doc) {
+					cls += "-invalid-utf8-input"
+				}
+				record(cls, fmt.Sprintf("doc=%q stream=%v buffer=%v", d, whole, reflect.ValueOf(bv).Elem().Interface()))
 			}
 			var chunkings [][]int
-			for c := 1; c < len(doc); c++ {
+			step := 1
+			if len(doc) > 200 {
+				step = 37 // long documents: sampled cut positions plus the buffer boundaries
+				for _, c := range []int{510, 511, 512, 513, 1022, 1023, 1024, 1025} {
+					if c < len(doc) {
+						chunkings = append(chunkings, []int{c})
+					}
+				}
+			}
+			for c := 1; c < len(doc); c += step {
 				chunkings = append(chunkings, []int{c})
 			}
 			if len(doc) <= 14 {
@@ -203,13 +219,20 @@ func TestGovcBounded(t *testing.T) {
 			}
 			// a reader failure other than EOF must never yield a successfully decoded value
 			if werr == nil {
-				for f := 0; f < len(doc); f++ {
+				fstep := 1
+				if len(doc) > 200 {
+					fstep = 53
+				}
+				for f := 0; f < len(doc); f += fstep {
 					n++
-					_, ferr, fp := run(doc, nil, f, dst.mk)
+					fv, ferr, fp := run(doc, nil, f, dst.mk)
 					if fp {
 						record("reader-error-panic-"+dst.name, fmt.Sprintf("doc=%q failure at %d: %v", d, f, ferr))
 					} else if ferr == nil {
-						record("reader-error-swallowed-"+dst.name+"-in-"+govcTokenKind(doc, f), fmt.Sprintf("doc=%q reader fails at byte %d, Decode returns nil", d, f))
+						// legitimate only if the value was already complete when the reader failed
+						if !reflect.DeepEqual(fv, whole) {
+							record("reader-error-swallowed-"+dst.name+"-in-"+govcTokenKind(doc, f), fmt.Sprintf("doc=%q reader fails at byte %d, Decode returns nil and %v", d, f, fv))
+						}
 					} else if !errors.Is(ferr, errGovcInjected) && ferr.Error() != errGovcInjected.Error() {
 						record("reader-error-replaced-"+dst.name, fmt.Sprintf("doc=%q reader fails at byte %d, Decode returns %q", d, f, ferr))
 					}
